@@ -71,6 +71,11 @@ impl SimNode {
     fn send(&self, tx: &Transaction) -> Verdict {
         let txid = tx.compute_txid();
         let mut st = lock(&self.state);
+        // a transaction confirmed in the node's active chain is "already in chain" whatever the policy script says:
+        // no node rejects (or re-accepts) what its own chain contains
+        if !matches!(st.overrides.get(&txid), Some(Script::Garbage)) && lock(&self.chain).confirmed_height(&txid, usize::MAX).is_some() {
+            return Verdict::Code(-27);
+        }
         if let Some(s) = st.overrides.get(&txid).cloned() {
             return match s {
                 Script::Accept => {
